@@ -249,7 +249,53 @@ func init() {
 		c.runGcsFamily(gcsFamily{Label: "C15",
 			Models: []gcsModel{dataModel},
 			Gen: func(r *rand.Rand) []gcs.Op {
+				if r.Intn(3) == 0 {
+					return genComposeChain(r)
+				}
 				return genGcsProgram(r, gcsProfile{fileSafe: true, n: 26, pCond: 0.1, wUpload: 3, wResum: 0.3, wPatch: 0.7, wDelete: 0.7, wRead: 0.5, wCompose: 3, wCopy: 2.5, wList: 0.2, maxResum: 12})
 			}, NRandQ: 60, NRandT: 1500})
 	}
+}
+
+// genComposeChain: tiny objects composed and copied into each other again and again over five names: composed
+// objects become sources (often after the same first source), objects are composed onto themselves and copied onto
+// their own sources -- histories in which a result that shares storage with one of its sources gets corrupted later
+func genComposeChain(r *rand.Rand) []gcs.Op {
+	names := []string{"a", "b.txt", "d/x", "e", "f g"}
+	g := ggen{r: r, names: names}
+	b := gcsBuckets[0]
+	prog := []gcs.Op{{Ev: "CreateBucket", B: b}}
+	tiny := func() j.B {
+		n := 1 + g.pick(12)
+		out := make(j.B, n)
+		for i := range out {
+			out[i] = byte('A' + g.pick(26))
+		}
+		return out
+	}
+	for _, n := range names[:2+g.pick(2)] {
+		prog = append(prog, gcs.Op{Ev: "Upload", B: b, N: j.S(n), Proto: []string{"media", "multipart"}[g.pick(2)], Content: tiny(), Decl: "none", Attrs: []gcs.KV{{K: "ct", V: j.S("text/plain")}}, Conds: gcs.NoConds()})
+	}
+	first := names[g.pick(2)]
+	for len(prog) < 22 {
+		switch x := g.pick(10); {
+		case x < 6:
+			op := gcs.Op{Ev: "Compose", B: b, N: j.S(names[g.pick(len(names))]), Attrs: []gcs.KV{{K: "ct", V: j.S("text/plain")}}, Conds: gcs.NoConds()}
+			for i, ns := 0, 2+g.pick(2); i < ns; i++ {
+				n := names[g.pick(len(names))]
+				if i == 0 && g.chance(0.6) {
+					n = first
+				}
+				op.Srcs = append(op.Srcs, gcs.Src{N: j.S(n), Gm: gcs.Unset()})
+			}
+			prog = append(prog, op)
+		case x < 8:
+			prog = append(prog, gcs.Op{Ev: "Copy", B: b, N: j.S(names[g.pick(len(names))]), Db: b, Dn: j.S(names[g.pick(len(names))])})
+		case x < 9:
+			prog = append(prog, gcs.Op{Ev: "Upload", B: b, N: j.S(names[g.pick(len(names))]), Proto: "media", Content: tiny(), Decl: "none", Attrs: []gcs.KV{{K: "ct", V: j.S("text/plain")}}, Conds: gcs.NoConds()})
+		default:
+			prog = append(prog, gcs.Op{Ev: "GetMedia", B: b, N: j.S(names[g.pick(len(names))]), Form: "api"})
+		}
+	}
+	return prog
 }
